@@ -293,6 +293,20 @@ class Engine:
         self.add(conds[feas[0]])
         return feas[0]
 
+    def choose(self, n):
+        """nondeterministic choice among n alternatives (all explored): harness-level forks such as
+        'length of the next grapheme cluster' or 'which class does this character belong to'"""
+        if n <= 1:
+            return 0
+        if self.pos < len(self.decisions):
+            k = self.decisions[self.pos]; self.pos += 1
+            return k
+        base = self.decisions[:self.pos]
+        for k in range(n - 1, 0, -1):
+            self.pending.append(base + [k])
+        self.decisions.append(0); self.pos += 1
+        return 0
+
     def _spawn(self):
         """fork-based DFS: the child explores the alternative arm from the current state; the parent waits
         for it (so exploration stays sequential per worker) and merges its results.  -> True in the child"""
